@@ -429,6 +429,38 @@ pub fn run_c13(ctx: &mut Ctx) {
             }
         }
     }
+    c13_flush_carrying_anims(ctx, &mut rng);
+}
+
+/// C13, animations whose FIRST frame carries rows in the flush: part of frame 0 by row calls, the rest by next_frame, then frame 1
+fn c13_flush_carrying_anims(ctx: &mut Ctx, rng: &mut Rng) {
+    let cfg = Config::default();
+    for (file, h) in crate::props::c04::flush_carrying_anims(rng) {
+        let refs = match reference_frames(&file, 0) { Ok(r) => r, Err(_) => continue };
+        for k in [1u32, 2, 3, 5] {
+            let mut ops: Vec<Op> = (0..h.saturating_sub(k)).map(|i| if i % 7 == 3 { Op::ReadRow } else { Op::NextRow }).collect();
+            ops.push(Op::NextFrame(0));
+            ops.push(Op::NextFrame(9));
+            ctx.rep.eval(true, fnv64(&file) ^ (k as u64) << 8);
+            ctx.rep.count("file kind", "flush-carrying first frame of an animation");
+            match assemble(&file, &ops, 0) {
+                Err(p) => ctx.rep.violation("oracle", "panic", &format!("panic during rows x {} + next_frame x 2: {}", h - k, p), case(&file, file.len(), &with_ri(&ops), &cfg)),
+                Ok(a) => {
+                    for p in &a.problems {
+                        ctx.rep.violation("oracle", "path-problem", &format!("animation: {} rows of frame 0 by row calls, then next_frame twice ({} rows left): {}", h - k, k, p), case(&file, file.len(), &with_ri(&ops), &cfg));
+                    }
+                    for (fk, px) in &a.frames {
+                        if refs.get(*fk).map(|rf| &rf.pixels != px).unwrap_or(true) {
+                            ctx.rep.violation("oracle", "frame-differs/flush-carrying-animation", &format!("animation: {} rows of frame 0 by row calls, then next_frame twice: frame {} differs from the whole-frame decode", h - k, fk), case(&file, file.len(), &with_ri(&ops), &cfg));
+                        }
+                    }
+                    if a.frames.len() != 2 {
+                        ctx.rep.violation("oracle", "path-problem", &format!("animation: {} rows of frame 0 by row calls, then next_frame twice: {} frames were completed, the file has 2", h - k, a.frames.len()), case(&file, file.len(), &with_ri(&ops), &cfg));
+                    }
+                }
+            }
+        }
+    }
 }
 
 fn with_ri(ops: &[Op]) -> Vec<Op> {
